@@ -657,11 +657,19 @@ def run(ctx):
     dfa_inputs.append((False, (("create", 3),) + tuple(("load", p) for p in p3) + (("basis", (p3[1], p3[4])),)))
     if not quick:
         dfa_inputs.append((True, (("create", 4), ("load", Perm((1, 3, 0, 2))), ("basis", (Perm((1, 3, 0, 2)), Perm((2, 0, 3, 1)))))))
+    # permutations of length 6 WITHOUT a pin word (56 of 720; none shorter): their automaton has the empty language
+    # and no accepting state - stored and loaded like any other
+    from specs import pins as _pins
+    nonpin = [Perm(t) for t in _pins.nonpin_perms(6)]
+    for t in ((1, 2, 5, 0, 3, 4), (2, 1, 0, 5, 4, 3)):
+        q = Perm(t) if Perm(t) in nonpin else nonpin[0]
+        dfa_inputs.append((True, (("store", q), ("load", q), ("basis", (q, Perm((0, 2, 1)))))))
     ctx.run("C20.dfa_db", dfa_inputs, chunk=12,
             rule=f"ALL sequences of length <= 2 over {len(base_ops)} operations (store/load of 6 perms <= 3, create(1), create(2), "
                  f"store with a given automaton, make_dfa_for_basis(use_db=True) x2) x memo kept / memo cleared before every step "
                  f"({n_exh}); seeded sequences of 3-6 operations over perms of length 1-{3 if quick else 4}; after every step every "
-                 f"file of the database is evaluated and compared (product construction) with make_dfa_for_perm")
+                 f"file of the database is evaluated and compared (product construction) with make_dfa_for_perm; plus store / load / basis "
+                 f"for two permutations of length 6 that have no pin word")
     ctx.add_sample("C20.dfa_db", dfa_inputs[n_exh + 1])
 
     # ---- distinct permutations, distinct entries
